@@ -77,9 +77,12 @@ func (g *c12Gen) nodes(depth int, inMacro int) []MNode {
 			e := ME{K: "name", N: pick(g.t, "fl", []string{"l0", "l1", "l3", "a", "undef", "str", "sl", "mp"})}
 			nd := MNode{K: "for", Name: pick(g.t, "fv", c12Names), E: &e, Rev: drawInt(g.t, 0, 3, "rev") == 0}
 			if e.N == "mp" {
-				nd.Name2 = pick(g.t, "fv2", []string{"b", "d"})
-				if nd.Name2 == nd.Name {
-					nd.Name2 = "c2"
+				// over a map: key and value, or (one loop variable) the keys alone
+				if drawBool(g.t, "kv") {
+					nd.Name2 = pick(g.t, "fv2", []string{"b", "d"})
+					if nd.Name2 == nd.Name {
+						nd.Name2 = "c2"
+					}
 				}
 				nd.Sorted = true
 			}
